@@ -94,14 +94,24 @@ pub fn garg() -> BoxedStrategy<String> {
 
 pub const KEY_UNIVERSE: &[&str] = &[
     "a", "A", "b", "B", "k", "K.1", "k.1", "repository_url", "Repository_URL", "checksum", "CHECKSUM", "Checksum", "", "!", "a b",
-    "é", "a=b", "%61", "z-9_", "9", "1a", ".a", "-", "_", "a_", "ab", "a_b", "a-", "a.", "file_name", "filename",
+    "é", "a=b", "%61", "z-9_", "9", "1a", ".a", "-", "_", "a_", "ab", "a_b", "a-", "a.", "file_name", "filename", "a0", "aa", "AA",
+    // longer than the inline capacity of the small-string type, with '_' / upper case / a long common prefix
+    "build_environment_variables_x",
+    "buildEnvironmentVariablesFlag",
+    "build_environment_variables_a",
+    "buildenvironmentvariablesflag",
+    "kkkkkkkkkkkkkkkkkkkkkkkkkkkkkkkkkkkkkkkkkkkkkkkkkkkkkkkkkkkkkkkka",
+    "kkkkkkkkkkkkkkkkkkkkkkkkkkkkkkkkkkkkkkkkkkkkkkkkkkkkkkkkkkkkkkkkb",
+    "KKKKKKKKKKKKKKKKKKKKKKKKKKKKKKKKKKKKKKKKKKKKKKKKKKKKKKKKKKKKKKKKA",
 ];
 
 pub fn gkey_any() -> BoxedStrategy<String> {
     prop_oneof![
-        4 => select(KEY_UNIVERSE).prop_map(str::to_string),
-        2 => gkey(),
-        1 => gtext(0),
+        8 => select(KEY_UNIVERSE).prop_map(str::to_string),
+        4 => gkey(),
+        2 => gtext(0),
+        // the keys of the qualifier bursts, in either letter case
+        1 => (0usize..36, any::<bool>()).prop_map(|(i, up)| if up { format!("Q{i:02}") } else { format!("q{i:02}") }),
     ]
     .boxed()
 }
@@ -110,7 +120,8 @@ pub fn gckval() -> BoxedStrategy<CkVal> {
     prop_oneof![
         4 => proptest::collection::vec(any::<u8>(), 0..=4).prop_map(CkVal::Bytes),
         2 => select(&["00", "AB", "ab", "aBcD", "", "0123456789abcdefABCDEF"][..]).prop_map(|s| CkVal::Raw(s.to_string())),
-        1 => select(&["0", "zz", "0G", "0x", " 00", "é"][..]).prop_map(|s| CkVal::Raw(s.to_string())),
+        1 => select(&["0", "zz", "0G", "0x", " 00", "é", "abc", "1", "A"][..]).prop_map(|s| CkVal::Raw(s.to_string())),
+        1 => (129usize..=300, any::<bool>()).prop_map(|(n, up)| CkVal::Raw(if up { "AB".repeat(n) } else { "ab".repeat(n) })),
     ]
     .boxed()
 }
@@ -171,8 +182,17 @@ pub fn gop(typed: bool) -> BoxedStrategy<Op> {
 }
 
 pub fn gprogram(typed: bool) -> BoxedStrategy<Program> {
-    (gtype_arg(typed), garg(), proptest::collection::vec(gop(typed), 0..=10))
-        .prop_map(|(ty, name, ops)| Program { ty, name, ops })
+    // now and then the program starts with a burst of more than 16 / 32 distinct qualifiers
+    let burst = prop_oneof![
+        14 => Just(0usize),
+        1 => 17usize..=36,
+    ];
+    (gtype_arg(typed), garg(), burst, proptest::collection::vec(gop(typed), 0..=10))
+        .prop_map(|(ty, name, burst, ops)| {
+            let mut all: Vec<Op> = (0..burst).map(|i| Op::Qualifier(format!("q{i:02}"), "v".to_string())).collect();
+            all.extend(ops);
+            Program { ty, name, ops: all }
+        })
         .boxed()
 }
 
